@@ -386,9 +386,25 @@ func c11Eval(u c11Universe, probes []c11Probe, hist []c11Op, s c11State) (issues
 	class, finding, msg string
 	c                   c11Case
 }, sig string) {
+	// once with the probe set served between the operations, once with the operations back to back
+	issues, sig = c11EvalMode(u, probes, hist, s, 0)
+	for mode := 1; mode <= 2 && len(issues) == 0 && len(hist) > mode; mode++ {
+		if is2, _ := c11EvalMode(u, probes, hist, s, mode); len(is2) > 0 {
+			return is2, sig
+		}
+	}
+	return issues, sig
+}
+
+// mode 0: the probe set is served between all operations; 1: never; 2: everywhere except between
+// the last two operations (which follow each other with no request in between).
+func c11EvalMode(u c11Universe, probes []c11Probe, hist []c11Op, s c11State, mode int) (issues []struct {
+	class, finding, msg string
+	c                   c11Case
+}, sig string) {
 	w := newC11World(u, nil)
 	for i, o := range hist {
-		if i > 0 {
+		if i > 0 && (mode == 0 || mode == 2 && i < len(hist)-1) {
 			// serve the whole probe set between operations too: whatever the container memoises while
 			// serving must not survive the next change
 			for pi := range probes {
@@ -547,6 +563,6 @@ func checkC11(run *h.Run) {
 	run.Cov["distinct_probe_signatures"] = sigs.Len()
 	run.Cov["exhaustive"] = true
 	run.Cov["roots"] = u.Roots
-	run.Cov["rule"] = fmt.Sprintf("E2: breadth-first search over operation histories up to depth %d; alphabet Add/Remove of %d services whose root paths collide in every way the mux registration can, Route/RemoveRoute of a dynamic route on %d of them, Handle of %d plain patterns, and one further Handle of an already registered pattern (rejected by net/http with a panic which the caller recovers: it registers nothing) (Add only of unregistered roots - the property's precondition). A successor is computed by replaying the history on a fresh real container; the probe set is also served between the operations of a history (so that nothing memoised while serving survives a change); in every reached state all %d probes (each service's routes incl. removed ones, root URLs, handler patterns, unknown URL; GET/POST; ServeHTTP and Dispatch) must be answered exactly as by a container built directly from the state's abstract content. States are merged on abstract content (plus the observed probe signature when a state deviates from its fresh twin). Every state is non-trivial.", u.Depth, len(u.Roots), len(u.Dynamic), len(u.Patterns), len(probes))
+	run.Cov["rule"] = fmt.Sprintf("E2: breadth-first search over operation histories up to depth %d; alphabet Add/Remove of %d services whose root paths collide in every way the mux registration can, Route/RemoveRoute of a dynamic route on %d of them, Handle of %d plain patterns, and one further Handle of an already registered pattern (rejected by net/http with a panic which the caller recovers: it registers nothing) (Add only of unregistered roots - the property's precondition). Every history is replayed three times - with the probe set served between all operations, between none, and between all but the last two. A successor is computed by replaying the history on a fresh real container; the probe set is also served between the operations of a history (so that nothing memoised while serving survives a change); in every reached state all %d probes (each service's routes incl. removed ones, root URLs, handler patterns, unknown URL; GET/POST; ServeHTTP and Dispatch) must be answered exactly as by a container built directly from the state's abstract content. States are merged on abstract content (plus the observed probe signature when a state deviates from its fresh twin). Every state is non-trivial.", u.Depth, len(u.Roots), len(u.Dynamic), len(u.Patterns), len(probes))
 	run.Assume = []string{"merged states have the same futures w.r.t. the probe set and alphabet because the oracle has just shown them observationally equal to the fresh-built container"}
 }
